@@ -25,6 +25,9 @@ PROP = {  # commit subject prefix -> (property, what failed)
     "fix: a parameter declared nullable accepts None": ("C06", "'def f(a: Int?)' refused f(None) and f(n) with n: Int? in every context (162 over-rejections)"),
     "fix: the classes caught by a handle are no longer caught": ("C08", "an unhandled, undeclared raise after a complete handle for the same class, or inside one of its arms, was accepted (226 cases)"),
     "fix: blank and comment lines are allowed before else": ("C14", "an empty / whitespace-only / comment line before 'else', before the first arm or between arms of match/handle made a valid program unparsable (343 of 12 422 trivia placements)"),
+    "fix: a class named like an internally special type no longer panics": ("C03", "'class Union' panicked the generator: 'class name should be type' (found through C15 renamings, 57 cases)"),
+    "fix: a function or method named size keeps its name": ("C15", "a definition named size was emitted as __size__, its call sites were not (49 renamings to `size`; also NameError under C04)"),
+    "fix: a user class called Union is rendered by its name": ("C15", "'class Union(def x: Int)' ... 'Union(1)' was emitted as '1'; as a parent it panicked ('Expected type in parent')"),
 }
 def main():
     data = json.load(open(P)) if os.path.exists(P) else {"findings": []}
